@@ -19,7 +19,9 @@ import (
 	"net"
 	"os"
 	"path/filepath"
+	"regexp"
 	"runtime"
+	"runtime/debug"
 	"sort"
 	"strconv"
 	"strings"
@@ -39,6 +41,10 @@ type bcCase struct {
 	ID  int    `json:"id"`
 	Max int    `json:"max"`
 	Src string `json:"src"`
+	// Hv: response header version of the request type used (0: MetadataRequest, 1: the flexible
+	// ListPartitionReassignmentsRequest); Len: length field of a runt / shortbody frame
+	Hv  int `json:"hv"`
+	Len int `json:"len"`
 	// Impatient: before going on, wait only for the first of the returns the model expects
 	Impatient bool     `json:"impatient"`
 	Steps     []bcStep `json:"steps"`
@@ -128,6 +134,12 @@ type bcServer struct {
 	nrecv  int
 	ended  bool // no further frames will be sent
 	closed bool // the server closed the connection
+	hv     int  // response header version
+	rlen   int  // length field of runt / shortbody frames
+	// after a stalled body nothing is sent before the call of the stalled request has returned
+	// (the bytes would be taken for the missing body, which no client can detect)
+	stallTag string
+	returned func(tag string) bool // holds rec.mu
 }
 
 func bcNewServer(rec *bcRec) (*bcServer, error) {
@@ -155,8 +167,17 @@ func (s *bcServer) readLoop(c net.Conn) {
 			return
 		}
 		tag := "?"
-		if m, ok := req.body.(*MetadataRequest); ok && len(m.Topics) == 1 {
-			tag = m.Topics[0]
+		switch m := req.body.(type) {
+		case *MetadataRequest:
+			if len(m.Topics) == 1 {
+				tag = m.Topics[0]
+			}
+		case *ListPartitionReassignmentsRequest:
+			if len(m.blocks) == 1 {
+				for k := range m.blocks {
+					tag = k
+				}
+			}
 		}
 		s.rec.ev(bcEvent{Ev: "srv_recv", Tag: tag, Corr: int(req.correlationID)}, func() {
 			s.unans = append(s.unans, bcReq{req.correlationID, tag})
@@ -178,11 +199,62 @@ func bcMetadataBody(name string) []byte {
 	return b
 }
 
-func bcFrame(corr int32, body []byte) []byte {
-	b := make([]byte, 0, 8+len(body))
-	b = binary.BigEndian.AppendUint32(b, uint32(4+len(body)))
+// bcReassignBody is a version 0 ListPartitionReassignmentsResponse body (flexible encoding): no
+// error, one topic `name` with partition 0 on replica 1.
+func bcReassignBody(name string) []byte {
+	b := make([]byte, 0, 32+len(name))
+	b = binary.BigEndian.AppendUint32(b, 0) // throttle
+	b = binary.BigEndian.AppendUint16(b, 0) // error
+	b = append(b, 0)                        // null error message
+	b = append(b, 2)                        // topics: compact array of 1
+	b = append(b, byte(len(name)+1))        // compact string
+	b = append(b, name...)
+	b = append(b, 2)                        // partitions: compact array of 1
+	b = binary.BigEndian.AppendUint32(b, 0) // partition 0
+	b = append(b, 2)                        // replicas: compact array of 1
+	b = binary.BigEndian.AppendUint32(b, 1)
+	b = append(b, 1, 1) // adding, removing: empty compact arrays
+	b = append(b, 0)    // partition tagged fields
+	b = append(b, 0)    // topic tagged fields
+	b = append(b, 0)    // response tagged fields
+	return b
+}
+
+func (s *bcServer) body(name string) []byte {
+	if s.hv >= 1 {
+		return bcReassignBody(name)
+	}
+	return bcMetadataBody(name)
+}
+
+// frame builds a complete response frame for the server's header version
+func (s *bcServer) frame(corr int32, body []byte) []byte {
+	n := 4 + len(body)
+	if s.hv >= 1 {
+		n++
+	}
+	b := make([]byte, 0, 4+n)
+	b = binary.BigEndian.AppendUint32(b, uint32(n))
 	b = binary.BigEndian.AppendUint32(b, uint32(corr))
+	if s.hv >= 1 {
+		b = append(b, 0) // empty tagged fields of the flexible response header
+	}
 	return append(b, body...)
+}
+
+// short builds a frame whose length field is n: the correlation id as far as it fits, then zeroes
+func bcShortFrame(n int, corr int32) []byte {
+	b := make([]byte, 0, 4+n)
+	b = binary.BigEndian.AppendUint32(b, uint32(n))
+	c := binary.BigEndian.AppendUint32(nil, uint32(corr))
+	for k := 0; k < n; k++ {
+		if k < 4 {
+			b = append(b, c[k])
+		} else {
+			b = append(b, 0)
+		}
+	}
+	return b
 }
 
 // answer performs one server step of the given kind on the oldest unanswered request
@@ -192,6 +264,12 @@ func (s *bcServer) answer(kind string) bool {
 	var out []byte
 	doClose := false
 	did := false
+	s.rec.mu.Lock()
+	st := s.stallTag
+	s.rec.mu.Unlock()
+	if st != "" && !s.rec.waitFor(func() bool { return s.returned(st) }, 400*time.Millisecond) {
+		return false
+	}
 	s.rec.mu.Lock()
 	if len(s.unans) > 0 && !s.ended && !s.closed && s.conn != nil {
 		did = true
@@ -209,21 +287,37 @@ func (s *bcServer) answer(kind string) bool {
 		switch kind {
 		case "ok", "ooo":
 			e.Corr, e.Res, e.N = int(r.corr), r.tag, 1
-			out = bcFrame(r.corr, bcMetadataBody(r.tag))
+			out = s.frame(r.corr, s.body(r.tag))
 		case "wrongid":
 			e.Corr, e.Res, e.N = int(r.corr)+100, r.tag, 1
-			out = bcFrame(r.corr+100, bcMetadataBody(r.tag))
+			out = s.frame(r.corr+100, s.body(r.tag))
 		case "nested":
 			// a frame with a wrong correlation id whose body is itself a well-formed frame for
 			// the next request: a receiver that merely skips the mismatched header would
 			// deliver the inner frame to the next caller
 			e.Corr, e.Res, e.N = int(r.corr)+100, "N."+r.tag, 1
-			out = bcFrame(r.corr+100, bcFrame(r.corr+1, bcMetadataBody("N."+r.tag)))
-		case "trunc":
-			full := bcFrame(r.corr, bcMetadataBody(r.tag))
-			out = full[:8+(len(full)-8)/2]
+			out = s.frame(r.corr+100, s.frame(r.corr+1, s.body("N."+r.tag)))
+		case "bodystall":
+			// intact header (valid length, matching id), fewer body bytes than announced; the
+			// connection stays open and later requests are answered once the client has given up
+			full := s.frame(r.corr, s.body(r.tag))
+			hl := 8 + s.hv
+			out = full[:hl+(len(full)-hl)/2]
 			e.Corr = int(r.corr)
-			s.ended = true
+			s.stallTag = r.tag
+		case "runt":
+			// length field <= 4: shorter than any response header
+			out = bcShortFrame(s.rlen, r.corr)
+			if s.rlen >= 4 {
+				e.Corr = int(r.corr)
+			}
+			e.Err = strconv.Itoa(s.rlen)
+		case "shortbody":
+			// well-framed (length 5..8, matching id) but the body cannot be decoded: only this
+			// call fails, the connection is healthy
+			out = bcShortFrame(s.rlen, r.corr)
+			e.Corr, e.Res, e.N = int(r.corr), "?short", 1
+			e.Err = strconv.Itoa(s.rlen)
 		case "oversize":
 			out = make([]byte, 8)
 			binary.BigEndian.PutUint32(out, 0x7fffffff)
@@ -266,9 +360,37 @@ type bcStats struct {
 
 var bcPanics int64
 
+// panics recovered by sarama's withRecover (PanicHandler) are attributed to the connection whose
+// goroutine panicked through the receiver pointer printed in the stack trace
+var (
+	bcBrokers    sync.Map // "0x..." -> *bcRec
+	bcLostPanics struct {
+		sync.Mutex
+		l []string
+	}
+	bcStackRe = regexp.MustCompile(`\(\*Broker\)\.[A-Za-z0-9_.]+\((0x[0-9a-f]+)`)
+)
+
+func bcPanicHandler(v interface{}) {
+	atomic.AddInt64(&bcPanics, 1)
+	msg := fmt.Sprint(v)
+	if len(msg) > 120 {
+		msg = msg[:120]
+	}
+	for _, m := range bcStackRe.FindAllStringSubmatch(string(debug.Stack()), -1) {
+		if r, ok := bcBrokers.Load(m[1]); ok {
+			r.(*bcRec).ev(bcEvent{Ev: "panic", Res: msg, Err: "panic"}, nil)
+			return
+		}
+	}
+	bcLostPanics.Lock()
+	bcLostPanics.l = append(bcLostPanics.l, msg)
+	bcLostPanics.Unlock()
+}
+
 func bcNeedsShortTimeout(c *bcCase) bool {
 	for _, s := range c.Steps {
-		if s.A == "timeout" || (s.A == "srv" && s.Kind == "trunc") {
+		if s.A == "timeout" || (s.A == "srv" && s.Kind == "runt") {
 			return true
 		}
 	}
@@ -303,11 +425,18 @@ func bcRunCase(c *bcCase, hang time.Duration, st *bcStats) ([]bcEvent, error) {
 		rt = 60 * time.Millisecond
 	}
 	conf := NewConfig()
+	if c.Hv >= 1 {
+		conf.Version = V2_4_0_0
+	}
 	conf.Net.MaxOpenRequests = c.Max
 	conf.Net.ReadTimeout = rt
 	conf.Net.WriteTimeout = 2 * time.Second
 	conf.Net.DialTimeout = 3 * time.Second
+	srv.hv, srv.rlen = c.Hv, c.Len
 	b := NewBroker(srv.ln.Addr().String())
+	bkey := fmt.Sprintf("%p", b)
+	bcBrokers.Store(bkey, rec)
+	defer bcBrokers.Delete(bkey)
 	if err := b.Open(conf); err != nil {
 		return nil, err
 	}
@@ -341,6 +470,7 @@ func bcRunCase(c *bcCase, hang time.Duration, st *bcStats) ([]bcEvent, error) {
 	nret := 0
 	closeStarted, closeReturned := false, false
 
+	srv.returned = func(tag string) bool { _, waiting := outstanding[tag]; return !waiting }
 	startCall := func(want int) {
 		rec.mu.Lock()
 		id := want
@@ -377,18 +507,32 @@ func bcRunCase(c *bcCase, hang time.Duration, st *bcStats) ([]bcEvent, error) {
 				})
 			}()
 			rec.ev(bcEvent{Ev: "call_start", C: id, Tag: tag}, nil)
-			resp, err := b.GetMetadata(&MetadataRequest{Topics: []string{tag}})
+			var err error
+			got := "?malformed"
+			if c.Hv >= 1 {
+				req := &ListPartitionReassignmentsRequest{TimeoutMs: 1000}
+				req.AddBlock(tag, []int32{0})
+				var resp *ListPartitionReassignmentsResponse
+				resp, err = b.ListPartitionReassignments(req)
+				if err == nil && resp != nil && len(resp.TopicStatus) == 1 {
+					for k := range resp.TopicStatus {
+						got = k
+					}
+				}
+			} else {
+				var resp *MetadataResponse
+				resp, err = b.GetMetadata(&MetadataRequest{Topics: []string{tag}})
+				if err == nil && resp != nil && len(resp.Topics) == 1 {
+					got = resp.Topics[0].Name
+				}
+			}
 			if err != nil {
 				errs = bcErrStr(err)
 				atomic.AddInt64(&st.errCalls, 1)
 				return
 			}
 			atomic.AddInt64(&st.okCalls, 1)
-			if resp != nil && len(resp.Topics) == 1 {
-				res = resp.Topics[0].Name
-			} else {
-				res = "?malformed"
-			}
+			res = got
 			if res == "" {
 				res = "?empty"
 			}
@@ -469,7 +613,7 @@ func bcRunCase(c *bcCase, hang time.Duration, st *bcStats) ([]bcEvent, error) {
 			startClose()
 		case "srv":
 			flush()
-			slow = s.Kind == "trunc"
+			slow = s.Kind == "runt" // a frame shorter than the header: the client may have to wait for its deadline
 			if !srv.answer(s.Kind) && !diverged {
 				diverged = true
 				why = fmt.Sprintf("nothing to answer at step %d", k)
@@ -494,6 +638,9 @@ func bcRunCase(c *bcCase, hang time.Duration, st *bcStats) ([]bcEvent, error) {
 		canAnswer := len(srv.unans) > 0 && !srv.ended && !srv.closed && !silenced
 		rec.mu.Unlock()
 		if left == 0 {
+			break
+		}
+		if time.Now().After(deadline) {
 			break
 		}
 		if canAnswer {
@@ -564,7 +711,7 @@ func TestVerifBrokerConn(t *testing.T) {
 	par := vEnvInt("VERIF_BC_PAR", 4*runtime.GOMAXPROCS(0))
 
 	oldPH := PanicHandler
-	PanicHandler = func(v interface{}) { atomic.AddInt64(&bcPanics, 1) }
+	PanicHandler = bcPanicHandler
 	defer func() { PanicHandler = oldPH }()
 
 	results := make([][]bcEvent, len(cases))
@@ -633,7 +780,23 @@ func TestVerifBrokerConn(t *testing.T) {
 			sb.Reset()
 		}
 	}
-	sb.WriteString(`{"t":` + strconv.Itoa(len(results)+1) + `,"i":1,"ev":"end","c":0,"tag":"","corr":0,"kind":"","res":"","err":"","n":0,"us":0}` + "\n")
+	// panics that could not be attributed to a connection: a trace of their own
+	bcLostPanics.Lock()
+	lost := bcLostPanics.l
+	bcLostPanics.Unlock()
+	if len(lost) > 0 {
+		evs := []bcEvent{{Ev: "reset", Kind: "unattributed-panics", Tag: "0", N: 1}}
+		for _, m := range lost {
+			evs = append(evs, bcEvent{Ev: "panic", Res: m, Err: "panic"})
+		}
+		evs = append(evs, bcEvent{Ev: "done"})
+		for i, e := range evs {
+			body, _ := json.Marshal(e)
+			sb.WriteString(`{"t":` + strconv.Itoa(len(results)+1) + `,"i":` + strconv.Itoa(i+1) + `,` + string(body[1:]) + "\n")
+			nev++
+		}
+	}
+	sb.WriteString(`{"t":` + strconv.Itoa(len(results)+2) + `,"i":1,"ev":"end","c":0,"tag":"","corr":0,"kind":"","res":"","err":"","n":0,"us":0}` + "\n")
 	nev++
 	f.WriteString(sb.String())
 	if err := f.Close(); err != nil {
@@ -643,6 +806,7 @@ func TestVerifBrokerConn(t *testing.T) {
 		"cases": st.cases, "skipped_after_many_hangs": skipped, "events": nev, "diverged": st.diverged, "calls": st.calls,
 		"ok_calls": st.okCalls, "err_calls": st.errCalls, "hangs": st.hangs,
 		"setup_retries": st.setupFailures, "panics_in_sarama_goroutines": atomic.LoadInt64(&bcPanics),
-		"cases_by_source": bySrc, "server_answers_by_kind": byKind, "samples": samples,
+		"unattributed_panics": len(lost),
+		"cases_by_source":     bySrc, "server_answers_by_kind": byKind, "samples": samples,
 	})
 }
